@@ -24,6 +24,7 @@ package standard
 //@ func (*Service).fetchExecutionConfig
 //@   requires s != nil && s.chainTime != nil && s.validatingAccountsProvider != nil && unheld(s.executionConfigMu)
 //@   assumes call obtainExecutionConfig#1 (cfg, err): cfg == fetchedCfg() && err == fetchedErr()
+//@   assumes call ValidatingAccountsForEpoch#1 (accts, err): err == nil ==> forall k phase0.ValidatorIndex :: in(accts, k) ==> accts[k] != nil
 //@   ensures calls(obtainExecutionConfig) > 0 && fetchedErr() == nil && fetchedCfg() != nil ==> s.executionConfig == fetchedCfg()
 //@   ensures !(calls(obtainExecutionConfig) > 0 && fetchedErr() == nil && fetchedCfg() != nil) ==> s.executionConfig == old(s.executionConfig)
 //@   modifies s.executionConfig
